@@ -499,3 +499,6 @@ def run(repo: Repo, rep: Report, tier: str) -> None:
     from .c05 import leb128_rule as _leb
 
     _leb(repo, rep, "C02.R22")
+    from .c07 import generic_write_array_rule
+
+    generic_write_array_rule(repo, rep, "C02.R23")
